@@ -5223,7 +5223,8 @@ static int32_t getTimeValidity(psPool_t *pool, const unsigned char **pp,
 /*
     Allocate them as null terminated strings
  */
-    if (getAsnLength(&p, seqLen, &timeLen) < 0 || (uint32) (end - p) < timeLen)
+    if (getAsnLength(&p, (uint32) (end - p), &timeLen) < 0 ||
+        (uint32) (end - p) < timeLen)
     {
         psTraceCrypto("Malformed validity 2\n");
         return PS_PARSE_FAIL;
@@ -5248,7 +5249,7 @@ static int32_t getTimeValidity(psPool_t *pool, const unsigned char **pp,
     }
     *notAfterTimeType = *p;
     p++;
-    if (getAsnLength(&p, seqLen - timeLen, &timeLen) < 0 ||
+    if (getAsnLength(&p, (uint32) (end - p), &timeLen) < 0 ||
         (uint32) (end - p) < timeLen)
     {
         psTraceCrypto("Malformed validity 4\n");
